@@ -63,13 +63,19 @@ func runRaceProgram(rc RaceCase, dir string) {
 				}
 			}()
 			<-start
-			var tx fs_db.Tx
+			var tx, ended fs_db.Tx
 			for i, op := range script {
 				var s fs_db.Store = w.DB
 				if op.H > 0 && tx != nil {
 					s = tx
 				}
 				key := rc.Keys[abs(op.Key)%len(rc.Keys)]
+				if op.Key < 0 {
+					key = "" // rejected by the store: the failure paths (Create's storing side reports the error while the client still writes) run concurrently too
+				}
+				if op.Late && ended != nil {
+					s = ended // a handle whose transaction has ended: every call fails
+				}
 				switch op.K {
 				case "begin":
 					if tx == nil {
@@ -81,12 +87,12 @@ func runRaceProgram(rc RaceCase, dir string) {
 				case "commit":
 					if tx != nil {
 						_ = tx.Commit(ctx)
-						tx = nil
+						ended, tx = tx, nil
 					}
 				case "rollback":
 					if tx != nil {
 						_ = tx.Rollback(ctx)
-						tx = nil
+						ended, tx = tx, nil
 					}
 				case "set":
 					b := model.Bytes(model.Val{Len: op.Len, Seed: uint32(gi*1000 + i)})
